@@ -323,6 +323,9 @@ def enum_tls(tier):
             for k in ks:
                 if 0 <= k <= full:
                     yield {"backend": backend, "tls": vn, "k": k, "slow": False}
+                    if k in (0, 1, 5, hs // 2, hs - 1, hs, hs + 1, full - 1, full) or k % 41 == 0:
+                        # the same stall by a peer that connected over IPv6 (global, and link-local with a zone)
+                        yield {"backend": backend, "tls": vn, "k": k, "slow": False, "peer": ["2001:db8::7", "fe80::1%eth0"][k % 2]}
             yield {"backend": backend, "tls": vn, "k": full, "slow": True}
             # the complete request as two TLS records that arrive in one TCP read, and nothing after it
             yield {"backend": backend, "tls": vn, "k": 10**9, "slow": False, "two_records": True}
@@ -350,7 +353,8 @@ def run_tls(case: dict):
         factory, sslctx = stacks.manual_stack(backend, handler)
         from vlib import certs as _certs
 
-        conn = memnet.ServerConn(loop, factory, sslctx, memnet.permissive_client_ctx(minv=ver, maxv=ver, cert=_certs.get(ccert) if ccert else None))
+        conn = memnet.ServerConn(loop, factory, sslctx, memnet.permissive_client_ctx(minv=ver, maxv=ver, cert=_certs.get(ccert) if ccert else None),
+                                 **({"peername": (case["peer"], 40123)} if case.get("peer") else {}))
         sent = [0]
 
         def deliver(out):
